@@ -512,9 +512,10 @@ Section Calls.
   Qed.
 
   (* ---------- a whole JWS sign / verify call ---------- *)
-  Definition get_alg_fn (alg : string) (allowed : option (list string)) : res string :=
-    get_alg alg allowed
-      (OAlg (option_map (fun r => (ja_key_type r, smem alg (st_jws_reco st))) (find_jws (st_jws_algs st) alg))).
+  Definition get_alg_fn (alg : string) (allowed : regref) : res string :=
+    get_alg alg
+      (OAlg (option_map (fun r => (ja_key_type r, smem alg (st_jws_reco st))) (find_jws (st_jws_algs st) alg))
+            (eff_allowed st allowed)).
 
   Definition use_fn (k : nat) (cont : res pv) : res pv :=
     match py_truthy_str (field_of k (asc "use")) with
@@ -535,12 +536,12 @@ Section Calls.
 
   (* everything after guess_key has returned key k and header kid v: a pure function of
      the immutable key data, the class tables and the call's own arguments *)
-  Definition after_key (sign : bool) (k : nat) (v : pv) (alg : string) (allowed : option (list string))
+  Definition after_key (sign : bool) (k : nat) (v : pv) (alg : string) (allowed : regref)
              (crypto : option jcls) (kt : string) : res pv :=
     if sign then use_fn k (ktype_fn k kt (algck_fn k alg (gok_then k "sign" (fin_fn crypto v))))
     else ktype_fn k kt (gok_then k "verify" (fin_fn crypto v)).
 
-  Definition jws_ok (sign : bool) (kr : keyref) (kid : option str) (alg : string) (allowed : option (list string))
+  Definition jws_ok (sign : bool) (kr : keyref) (kid : option str) (alg : string) (allowed : regref)
              (crypto : option jcls) (lo hi : N) (r : res pv) : Prop :=
     if sign then
       match get_alg_fn alg allowed with
@@ -558,7 +559,7 @@ Section Calls.
                                      end)
             end.
 
-  Lemma jwsalg_obs w1 alg allowed : ww w1 -> get_alg alg allowed (snd (sem im (AJwsAlg alg) w1)) = get_alg_fn alg allowed.
+  Lemma jwsalg_obs w1 alg allowed : ww w1 -> get_alg alg (snd (sem im (AJwsAlg alg allowed) w1)) = get_alg_fn alg allowed.
   Proof. intros [_ [_ [S _]]]. simpl. rewrite S. reflexivity. Qed.
 
   (* the tail shared by sign and verify: get_op_key then the primitive's verdict *)
@@ -665,18 +666,19 @@ Section Calls.
   Qed.
 
   (* ---------- a whole JWE encrypt / decrypt call (direct encryption, AES key wrapping) ---------- *)
-  Definition jwe_reg_fn (alg enc : string) (allowed : option (list string)) : res (string * list string) :=
-    jwe_reg alg enc allowed
+  Definition jwe_reg_fn (alg enc : string) (allowed : regref) : res (string * list string) :=
+    jwe_reg alg enc
       (OJwe (option_map (fun r => (ea_family r, ea_key_types r))
                         (find (fun r => String.eqb (ea_name r) alg) (st_jwe_algs st)))
             (smem alg (st_jwe_reco st))
             (existsb (fun r => String.eqb (ee_name r) enc) (st_jwe_encs st))
-            (smem enc (st_jwe_reco st))).
+            (smem enc (st_jwe_reco st))
+            (eff_allowed st allowed)).
   Lemma jwereg_obs w1 alg enc allowed : ww w1 ->
-    jwe_reg alg enc allowed (snd (sem im (AJweAlg alg enc) w1)) = jwe_reg_fn alg enc allowed.
+    jwe_reg alg enc (snd (sem im (AJweAlg alg enc allowed) w1)) = jwe_reg_fn alg enc allowed.
   Proof. intros [_ [_ [S _]]]. simpl. rewrite S. reflexivity. Qed.
 
-  Definition jwe_after (encrypt : bool) (k : nat) (v : pv) (alg enc : string) (allowed : option (list string))
+  Definition jwe_after (encrypt : bool) (k : nat) (v : pv) (alg enc : string) (allowed : regref)
              (crypto : option jcls) : res pv :=
     match py_truthy_str (field_of k (asc "use")) with
     | Some s => if str_eqb s (asc "enc") then
@@ -707,7 +709,7 @@ Section Calls.
     end.
 
   Definition jwe_ok (encrypt : bool) (kr : keyref) (kid : option str) (alg enc : string)
-             (allowed : option (list string)) (crypto : option jcls) (lo hi : N) (r : res pv) : Prop :=
+             (allowed : regref) (crypto : option jcls) (lo hi : N) (r : res pv) : Prop :=
     exists g, guess_ok kr kid encrypt alg lo hi g /\
       r = match g with Err e => Err e | Ok (k, v) => jwe_after encrypt k v alg enc allowed crypto end.
 
